@@ -358,15 +358,22 @@ fn check_value(tx: &Transaction, descr: &str, case: &Value, sweep_chains: &[usiz
                 case,
             );
         }
-        match get_id(&pre, *chain) {
-            Ok(g) if g == ids[ci] => {}
-            other => {
-                acc.outcome("VIOLATION_id_after_precompute");
-                acc.viol(
-                    format!("C03:{kind}:id-after-precompute"),
-                    &|| format!("id() on the precomputed transaction gives {other:?}, without metadata {}; {descr}", h(&ids[ci])),
-                    case,
-                );
+        // (id() on a precomputed value returns the cache by design: only compared when the cache is right)
+        if cached == Some(ids[ci]) {
+            match get_id(&pre, *chain) {
+                Ok(g) if g == ids[ci] => {}
+                other => {
+                    acc.outcome("VIOLATION_id_after_precompute");
+                    acc.viol(
+                        format!("C03:{kind}:id-after-precompute"),
+                        &|| format!(
+                            "id() on the precomputed transaction gives {:?}, without metadata {}; {descr}",
+                            other.as_ref().map(|g| h(g)),
+                            h(&ids[ci])
+                        ),
+                        case,
+                    );
+                }
             }
         }
         // idempotence
